@@ -51,13 +51,14 @@ type relayCase struct {
 	V6Client  bool    `json:"client_over_ipv6"`
 	TailAfter int     `json:"bytes_after_peer_fin"`
 	ShortName string  `json:"short_host_name,omitempty"`
-	SlowRead  int     `json:"target_reads_late_ms"` // the target starts reading this long after accepting
-	SlowMs    int     `json:"slow_ms"`              // both sides pause this long mid-stream (longer than the handshake timeout)
+	SlowRead  int     `json:"target_reads_late_ms"`      // the target starts reading this long after accepting
+	SlowMs    int     `json:"slow_ms"`                   // both sides pause this long mid-stream (longer than the handshake timeout)
+	CloseLn   bool    `json:"listener_closed_mid_relay"` // own listener, closed once the relay is established (what every reload does to the old listeners)
 }
 
 func (rc relayCase) class() string {
 	return fmt.Sprintf("%s|addr=%d|up=%s|down=%s|chunks=%s|coalesce=%v|empty=%v|cut=%s|%s|tfirst=%v|raw=%v", rc.Key.Cipher, rc.AddrType,
-		sizeBucket(rc.UpLen), sizeBucket(rc.DownLen), sizeBucket(rc.Chunks[0]), rc.Coalesce, rc.EmptyChk, cutClass(rc.FirstCut), rc.Mode, rc.TgtFirst, rc.Raw) + fmt.Sprintf("|slow=%v|late-reader=%v|short-name=%d", rc.SlowMs > 0, rc.SlowRead > 0, len(rc.ShortName))
+		sizeBucket(rc.UpLen), sizeBucket(rc.DownLen), sizeBucket(rc.Chunks[0]), rc.Coalesce, rc.EmptyChk, cutClass(rc.FirstCut), rc.Mode, rc.TgtFirst, rc.Raw) + fmt.Sprintf("|slow=%v|late-reader=%v|short-name=%d|ln-closed=%v", rc.SlowMs > 0, rc.SlowRead > 0, len(rc.ShortName), rc.CloseLn)
 }
 
 func cutClass(n int) string {
@@ -148,6 +149,10 @@ func genRelayCase(r *rand.Rand, batch int, keys []KeySpec, big bool) relayCase {
 	if r.Intn(8) == 0 {
 		rc.SlowRead = 100 + r.Intn(300)
 	}
+	if r.Intn(10) == 0 {
+		rc.CloseLn = true
+		rc.Coalesce = false // the address goes out first, so that the relay exists before the listener closes
+	}
 	return rc
 }
 
@@ -182,6 +187,7 @@ type relayOutcome struct {
 	TailDelivered  bool // data sent after the peer's FIN arrived
 	TargetEOFEarly bool // target saw EOF before the client half-closed
 	ClientLate     bool // the harness client needed more than half the handshake timeout to send the address
+	LnClosedMid    bool // the listener was closed while this relay was established and had data left to move
 }
 
 // relayEnv is the shared environment of relay cases.
@@ -265,6 +271,12 @@ func runRelayCase(e *relayEnv, r *rand.Rand, rc relayCase) *relayOutcome {
 	rig := e.RigRec
 	if rc.Raw {
 		rig = e.RigRaw
+	}
+	if rc.CloseLn {
+		o := rig.opts
+		o.Tee, o.CloseAfterAccepts, o.ViaManager = nil, 0, false
+		rig = StartTCPRig(rig.Keys, o)
+		defer rig.Close(relayB)
 	}
 
 	var tmu sync.Mutex
@@ -436,6 +448,29 @@ func runRelayCase(e *relayEnv, r *rand.Rand, rc relayCase) *relayOutcome {
 	if rc.FirstCut > 0 {
 		cuts = []int{rc.FirstCut}
 	}
+	// closeLn closes the case's own listener once the target connection exists (never before: a
+	// connection that has not dialled yet when its listener goes away may legitimately fail)
+	closeLn := func() {
+		if !rc.CloseLn {
+			return
+		}
+		established := false
+		for dl := time.Now().Add(3 * time.Second); time.Now().Before(dl) && !established; time.Sleep(time.Millisecond) {
+			tmu.Lock()
+			established = out.TargetConns > 0
+			tmu.Unlock()
+		}
+		if established {
+			rig.closer.Close()
+			select {
+			case <-rig.done: // StreamServe does not return while the handler runs; give the cancellation time to spread
+			case <-time.After(30 * time.Millisecond):
+			}
+			emu.Lock()
+			out.LnClosedMid = true
+			emu.Unlock()
+		}
+	}
 	writeWire := func() error {
 		defer func() {
 			// (first call only matters: the address is in the first part)
@@ -450,6 +485,7 @@ func runRelayCase(e *relayEnv, r *rand.Rand, rc relayCase) *relayOutcome {
 				out.ClientLate = true
 				emu.Unlock()
 			}
+			closeLn()
 			time.Sleep(time.Duration(rc.SlowMs) * time.Millisecond)
 			return cl.WriteRaw(wire[half:])
 		}
@@ -462,6 +498,7 @@ func runRelayCase(e *relayEnv, r *rand.Rand, rc relayCase) *relayOutcome {
 		if err != nil {
 			return err
 		}
+		closeLn()
 		return cl.WriteRaw(wire[max(hdrLen, min(len(wire), 60)):])
 	}
 	switch rc.Mode {
